@@ -75,6 +75,8 @@ BREAKS = {
                                               "                        try:\n                            try:\n                                self.exec_block(h.body, fr)\n"
                                               "                            except PyRaise:\n                                pass\n                        finally:"),
     'list.pop() takes the first element': ('pyvc.interp_data', 'DataMixin', 'cm_HList_pop', 'i = -1 if idx is None else', 'i = 0 if idx is None else'),
+    'a write through a memoryview slice lands at the start of the buffer': ('pyvc.interp_data', 'DataMixin', 'buf_write',
+                                                                              'pre, rest = self.take_drop(h.seq, at)', 'pre, rest = self.take_drop(h.seq, z3.IntVal(0))'),
     'with never suppresses': ('pyvc.interp_stmts', 'StmtMixin', 'with_items',
                               "            if self.cond(r, f'L{st.lineno}:with-suppress'):\n                return", "            if self.cond(r, f'L{st.lineno}:with-suppress'):\n                pass"),
     'list += builds a new list': ('pyvc.interp_stmts', 'StmtMixin', 'augop',
